@@ -53,6 +53,7 @@ func FuzzFormatPreserve(f *testing.F) {
 	} {
 		f.Add([]byte(s), uint8(9), uint8(0))
 		f.Add([]byte(s), uint8(0x29), uint8(7))
+		f.Add([]byte(s), uint8(0x49), uint8(0)) // default layout + StripComments
 	}
 	known := loadKnown()
 	f.Fuzz(func(t *testing.T, src []byte, a, b uint8) {
